@@ -7,8 +7,9 @@ the object, the program hands it to the request goroutines — a `go` statement,
 other thread's first event is the matching `acquire`). Happens-before is the transitive closure of program order,
 Unlock→Lock on the same mutex, and publish→acquire.
 
-Part 2: the lazy initialiser under a lock (`Plan.abstractAlternative`, and `PlanCache.lookup/store` seen per key) as a
-small-step machine driven by an arbitrary schedule.
+Part 2: the lazy initialiser under a lock (`Plan.abstractAlternative`: check and store in one critical section) and
+`PlanCache.Get`'s lookup / compute-outside / store protocol as small-step machines driven by an arbitrary schedule, plus the
+broken variant (critical section split, slot claimed by a placeholder) as a machine with a failing schedule.
 
 Part 3: the hand-written classification of every write site of /repo (`Generated.lockFacts`) and every use of a field
 that is declared lock-protected (`Generated.fieldAccesses`), with the decidable check that the sites respect the
@@ -248,6 +249,39 @@ def expectedLazyGuards : List (String × String × String) := [
 def lazyGuardsAsClassified (guards : List (String × String × String)) : Bool :=
   guards.filter (fun g => lazyOnceFuncs.contains g.1) == expectedLazyGuards &&
   lazyOnceFuncs.all (fun f => expectedLazyGuards.any (fun g => g.1 == f))
+
+/-! `PlanCache.Get` (plan_cache.go) is deliberately NOT one critical section: `lookup` (Lock; defer Unlock; hit or miss),
+then on a miss `planAndValidate` WITHOUT the lock, then `store` (Lock; defer Unlock; insert or overwrite). That is sound
+for a different reason than `lstep`: a miss is reported as a miss (never as an entry), every thread that missed computes
+the value itself, and the initialiser is deterministic, so whichever store comes last writes the same value. -/
+structure CState (κ V : Type) where
+  mu : Option Tid
+  cell : κ → Option V
+  pc : Tid → Nat
+  loc : Tid → Option V
+  out : Tid → Option V
+
+def CState.init {κ V : Type} : CState κ V :=
+  { mu := none, cell := fun _ => none, pc := fun _ => 0, loc := fun _ => none, out := fun _ => none }
+
+def cstep {κ V : Type} [DecidableEq κ] (key : Tid → κ) (init : κ → V) (s : CState κ V) (t : Tid) : CState κ V :=
+  match s.pc t with
+  | 0 => match s.mu with                                   -- lookup: Lock
+    | none => { s with mu := some t, pc := upd s.pc t 1 }
+    | some _ => s
+  | 1 => match s.cell (key t) with                         -- lookup: body, deferred Unlock
+    | some v => { s with mu := none, out := upd s.out t (some v), pc := upd s.pc t 5 }
+    | none => { s with mu := none, pc := upd s.pc t 2 }
+  | 2 => { s with loc := upd s.loc t (some (init (key t))), pc := upd s.pc t 3 }   -- planAndValidate, no lock held
+  | 3 => match s.mu with                                   -- store: Lock
+    | none => { s with mu := some t, pc := upd s.pc t 4 }
+    | some _ => s
+  | 4 => { s with mu := none, cell := fun k => if k = key t then s.loc t else s.cell k,  -- store: body, deferred Unlock
+                  out := upd s.out t (s.loc t), pc := upd s.pc t 5 }
+  | _ => s
+
+def crun {κ V : Type} [DecidableEq κ] (key : Tid → κ) (init : κ → V) (sched : List Tid) : CState κ V :=
+  sched.foldl (cstep key init) CState.init
 
 /-! The mutant the shape obligation is there for, as a machine: the lock is taken twice — lookup and CLAIM the slot with a
 placeholder, unlock, compute outside, lock, store — and a present placeholder is read as a finished entry. -/
